@@ -445,6 +445,7 @@ class Real:
         """(commands canonical or 'E', header options) through parse_sb21_config + load_from_config"""
         p = self.scratch / "prog.bd"
         p.write_text(text)
+        self.last_uids = None
         try:
             with time_limit(30):
                 cfg = self.BootImageV21.parse_sb21_config(str(p), extern)
@@ -464,9 +465,37 @@ class Real:
             for s in sb.boot_sections:
                 secs.append(";".join(self.cmd_canon(c) for c in s._commands))
             hdr = (int(sb.header.flags), str(sb.header.product_version), str(sb.header.component_version), int(sb.header.build_number))
+            self.last_uids = [int(x.uid) for x in sb.boot_sections]
             return "|".join(secs), hdr
         except Exception as exc:  # noqa: BLE001
             return "E:canon:" + type(exc).__name__, None
+
+    def cli_export(self, text, extern=None):
+        """`nxpimage sb21 export -c file.bd …` through click's CliRunner -> bytes of the SB file, or None when the command fails"""
+        from click.testing import CliRunner
+        import spsdk.apps.nxpimage as nxpimage
+        p = self.scratch / "cli.bd"
+        p.write_text(text)
+        out = self.scratch / "cli.sb"
+        if out.exists():
+            out.unlink()
+        cmd = ["sb21", "export", "-c", str(p), "-o", str(out), "-k", self.kek, "-s", str(self.repo / TESTDATA / "keys_and_certs/k0_cert0_2048.pem"),
+               "-S", self.cert]
+        for r in self.roots:
+            cmd += ["-R", r]
+        cmd += ["-h", str(self.scratch / "cli_hash.bin")] + list(extern or [])
+        cwd = os.getcwd()
+        os.chdir(self.scratch)
+        try:
+            with time_limit(60):
+                res = CliRunner().invoke(nxpimage.main, cmd)
+        except Hang:
+            return "HANG"
+        finally:
+            os.chdir(cwd)
+        if res.exit_code != 0 or not out.exists():
+            return None
+        return out.read_bytes()
 
     def cmd_canon(self, c):
         C = self.C
@@ -495,7 +524,7 @@ class Real:
             return "ksfrom:%d:%d" % (c.address, c.controller_id)
         return "unknown:" + n
 
-    def crypto(self, kind, addr, st, en, key, ctr, inp):
+    def crypto(self, kind, addr, st, en, key, ctr, inp, swap="0"):
         """expected LOAD of a keywrap / encrypt statement, recomputed with SPSDK's KeyBlob from the resolved operands"""
         from spsdk.utils.crypto.otfad import KeyBlob
         from spsdk.utils.misc import align_block
@@ -507,7 +536,7 @@ class Real:
             return "load:%d:0:keywrap[%d]" % (addr, len(data))
         data = bytes.fromhex(inp) if inp != "-" else b""
         if bool(en & kb.KEY_FLAG_ADE) and bool(en & kb.KEY_FLAG_VLD):
-            data = kb.encrypt_image(base_address=addr, data=align_block(data, 512), byte_swap=False)
+            data = kb.encrypt_image(base_address=addr, data=align_block(data, 512), byte_swap=swap == "1")
         if not (0 <= addr <= 0xFFFFFFFF):
             raise ValueError("address")
         return "load:%d:0:%s" % (addr, hx(data))
@@ -692,6 +721,8 @@ def stmt_ref(s, ev, ctx):
     def is_addr(a):
         return a is not None and 0 <= a <= 0xFFFFFFFF
 
+    is_u32 = is_addr
+
     def mem(m):
         if m is None:
             return 0
@@ -720,7 +751,8 @@ def stmt_ref(s, ev, ctx):
                 c = b["content"]
                 if all(isinstance(c.get(x), int) for x in ("start", "end")) and all(isinstance(c.get(x), str) for x in ("key", "counter")):
                     if all(len(c[x]) % 2 == 0 and all(ch in HEXCH for ch in c[x]) for x in ("key", "counter")):
-                        return c
+                        if isinstance(c.get("byteSwap", 0), int):
+                            return c
                 return None
         return None
     if k == "load":
@@ -782,17 +814,23 @@ def stmt_ref(s, ev, ctx):
         return "erase:0:0:2:0"
     if k == "enable":
         m, a = mem(s["opt"]), val(s["e"])
-        return None if m is None or a is None else "enable:%d:4:%d" % (a, m)
+        return None if m is None or not is_addr(a) else "enable:%d:4:%d" % (a, m)
+    if k == "call":
+        a = val(s["e"])
+        x = 0 if s["arg"] in (None, "empty") else val(s["arg"])
+        return "call:%d:i%d" % (a, x) if is_addr(a) and is_u32(x) else None
+    if k == "reset":
+        return "reset"
     if k in ("jump", "jumpsp"):
         a = val(s["e"])
         x = 0 if s["arg"] in (None, "empty") else val(s["arg"])
         sp = val(s["sp"]) if k == "jumpsp" else None
-        if not is_addr(a) or x is None or (k == "jumpsp" and sp is None):
+        if not is_addr(a) or not is_u32(x) or (k == "jumpsp" and not is_u32(sp)):
             return None
         return "jump:%d:i%d:%s" % (a, x, "-" if k == "jump" else "i%d" % sp)
     if k == "ver":
         v = val(s["e"])
-        return None if v is None else "vc:%d:i%d" % (1 if s["nsec"] else 0, v)
+        return None if not is_u32(v) else "vc:%d:i%d" % (1 if s["nsec"] else 0, v)
     if k in ("ksto", "ksfrom"):
         o, t = s["opt"], s["target"]
         if o is None or o[0] != "@" or t[0] != "a":
@@ -806,7 +844,7 @@ def stmt_ref(s, ev, ctx):
         c = kb(i) if i is not None else None
         if c is None or not is_addr(a):
             return None
-        return "crypto:keywrap:%d:%d:%d:%s:%s:%s" % (a, c["start"], c["end"], c["key"].lower(), c["counter"].lower(), s["blob"].lower() or "")
+        return "crypto:keywrap:%d:%d:%d:%s:%s:%s:0" % (a, c["start"], c["end"], c["key"].lower(), c["counter"].lower(), s["blob"].lower() or "")
     if k == "encrypt":
         i = val(s["id"])
         t = s["target"]
@@ -817,8 +855,9 @@ def stmt_ref(s, ev, ctx):
         c = kb(i) if i is not None else None
         if c is None or not is_addr(a) or bs is None:
             return None
-        return "crypto:encrypt:%d:%d:%d:%s:%s:%s" % (a, c["start"], c["end"], c["key"].lower(), c["counter"].lower(), bs.hex())
-    return None  # call, reset, unsupported constructs
+        return "crypto:encrypt:%d:%d:%d:%s:%s:%s:%d" % (a, c["start"], c["end"], c["key"].lower(), c["counter"].lower(), bs.hex(),
+                                                          1 if c.get("byteSwap", 0) else 0)
+    return None  # unsupported constructs
 
 
 def is_plain_blob_load(s, ref_mem):
@@ -1051,8 +1090,8 @@ def expr_streams(ck, real, drv, rng):
                 s.note(t, nontrivial=False, cls="huge-shift-skipped")
                 continue
             except StrOp:
-                s.note(t, nontrivial=False, cls="operation-on-str-skipped")
-                continue
+                # an operation on a str (undefined identifier): modelled, but no oracle here (see stream undefined_ident)
+                pw = "E"
             except RefErr:
                 pass
         safe.append((t, pw))
@@ -1093,8 +1132,8 @@ def expr_streams(ck, real, drv, rng):
                 s.note(t, nontrivial=False, cls="huge-shift-skipped")
                 continue
             except StrOp:
-                s.note(t, nontrivial=False, cls="operation-on-str-skipped")
-                continue
+                # an operation on a str (undefined identifier): modelled, but no oracle here (see stream undefined_ident)
+                pw = "E"
             except RefErr:
                 pass
         safe.append((t, pw))
@@ -1183,6 +1222,104 @@ def duplicate_stream(ck, real, drv, rng):
         s.compare({"text": text}, got, ans.split(" # ")[0])
 
 
+def rom_expected(cmds):
+    """reference commands (canonical operand form) -> what the boot ROM reads (C04's ROM model notation); None if not representable"""
+    out = []
+    for c in cmds.split(";") if cmds else []:
+        f = c.split(":")
+        k = f[0]
+        if k == "load":
+            out.append(("load", int(f[1]), mem_flags(int(f[2])), f[3]))
+        elif k == "fill":
+            out.append("fill(%d,%d,%d)" % (int(f[1]), int(f[2], 16), int(f[3])))
+        elif k == "prog":
+            out.append("prog(%d,%d,%d,%d)" % (int(f[1]), int(f[3]), int(f[4]), ((int(f[2]) << 8) & 0xFF00) | (1 if int(f[4]) else 0)))
+        elif k == "erase":
+            out.append("erase(%d,%d,%d)" % (int(f[1]), int(f[2]), int(f[3])))
+        elif k == "enable":
+            out.append("memEnable(%d,%d,%d)" % (int(f[1]), int(f[2]), mem_flags(int(f[3]))))
+        elif k == "jump":
+            out.append("jump(%d,%d,%s)" % (int(f[1]), int(f[2][1:]), "-" if f[3] == "-" else f[3][1:]))
+        elif k == "vc":
+            out.append("fwVersionCheck(%d,%d)" % (int(f[1]), int(f[2][1:])))
+        elif k == "ksto":
+            out.append("keystoreToNv(%d,%d)" % (int(f[1]), int(f[2]) << 8))
+        elif k == "ksfrom":
+            out.append("keystoreFromNv(%d,%d)" % (int(f[1]), int(f[2]) << 8))
+        else:
+            return None
+    return out
+
+
+def rom_match(got, exp):
+    """compare the ROM model's command list of one section with the expected one (load data: prefix + 16-byte padded length;
+    keywrap output is random by design: address and length only)"""
+    import re as _re
+    items = _re.findall(r"[A-Za-z]+\([^)]*\)", got)
+    if len(items) != len(exp):
+        return False
+    for g, e in zip(items, exp):
+        if isinstance(e, tuple):
+            m = _re.fullmatch(r"load\((\d+),(\d+),([0-9a-f]*|-)\)", g)
+            if not m or int(m.group(1)) != e[1] or int(m.group(2)) != e[2]:
+                return False
+            data = "" if m.group(3) == "-" else m.group(3)
+            if e[3].startswith("keywrap["):
+                if len(data) // 2 != int(e[3][8:-1]):
+                    return False
+                continue
+            want = "" if e[3] == "-" else e[3]
+            n = len(want) // 2
+            if not data.startswith(want) or len(data) // 2 != (n + 15) // 16 * 16:
+                return False
+        elif g != e:
+            return False
+    return True
+
+
+def undefined_stream(ck, real, drv, rng, envwire):
+    """An undefined identifier denotes nothing: a program whose command operand depends on one must be refused."""
+    s = ck.stream("undefined_ident", "programs in which a constant is computed from an UNDEFINED identifier with && || ! == != < <= + * (and "
+                  "mixed with numbers) and then used as a command operand: implementation vs model (Python str semantics of the operators), "
+                  "and the oracle `refused, never translated`; non-trivial = distinct text")
+    forms = ["foo && {v}", "{v} && foo", "foo || {v}", "0 || foo", "{v} || foo", "! foo", "foo == foo", "foo != bar", "foo < bar", "foo >= bar",
+             "foo == {v}", "foo != {v}", "foo + bar", "foo * 2", "2 * foo", "foo * 0", "! ( foo && 0 )", "foo && bar && {v}", "( foo == bar ) || {v}",
+             "foo < {v}", "foo - 1", "foo.b", "- foo", "foo / 2", "foo & 1", "defined(foo) || {v}", "foo"]
+    uses = [("jump", "jump {c};", ["jump", "{c}", "a-"]), ("ver", "version_check sec {c};", ["ver", "0", "{c}"]),
+            ("fill", "load 0x55 > {c};", ["load", "m-", "dp", hx("0x55"), "ta", "{c}"]),
+            ("erase", "erase ({c});", ["erase", "m-", "ta", "{c}"]), ("arg", "jump 0x10 ({c});", ["jump", hx("0x10"), "a1", "{c}"]),
+            ("enable", "enable @{c} 0x100;", ["enable", "m@", "{c}", hx("0x100")])]
+    for _ in range(ck.budget(150, 3000)):
+        v = rng.choice(["0x1000", "4", "0", "1", "0x20000000"])
+        form = rng.choice(forms).format(v=v)
+        second = rng.random() < 0.3
+        consts = [("c", form)]
+        cname = "c"
+        if second:
+            consts.append(("d", rng.choice(["c", "c && 0x10", "c || 8", "! c", "c == 1"])))
+            cname = "d"
+        kind, txt, w = rng.choice(uses)
+        text = "options { flags = 0x8; }\nconstants { %s }\nsection (0) {\n    %s\n}\n" % (
+            " ".join("%s = %s;" % cd for cd in consts), txt.format(c=cname))
+        wirereq = ["OPTS", "1", "flags", "E", hx("0x8"), "CONSTS", str(len(consts))] + [x for nm, e in consts for x in (nm, hx(e))]
+        wirereq += ["SEC", hx("0"), "1"] + [hx(cname) if x == "{c}" else x for x in w]
+        inp = {"text": text, "extern": []}
+        gotcfg, _raw = real.parse(text)
+        gotc, _hdr = real.load(text)
+        ans = drv.ask(" ".join(["P"] + envwire + ["PROG"] + wirereq))
+        parts = ans.split(" # ")
+        s.note(text, cls=("accepted" if gotc != "E" else "refused") + "/" + kind)
+        if len(parts) != 4:
+            s.compare(inp, "4 fields", ans, "driver rejected the request")
+            continue
+        s.compare(inp, gotcfg, parts[0], "configuration of BDParser.parse differs from the model")
+        s.compare(inp, gotc, parts[1], "commands of load_from_config differ from the model")
+        # reference: `foo`, `bar` are undefined -> the constant has no value -> the statement has no meaning
+        if form.strip() != "foo" and not form.startswith("defined(foo)"):
+            s.expect(gotc == "E", inp, "a command operand computed from an undefined identifier is translated instead of refused", gotc, "E",
+                     finding="C19-undefined-ident")
+
+
 def program_streams(ck, real, drv, rng):
     for nm, data in (("f16.bin", bytes(range(16))), ("f5.bin", b"\x01\x02\x03\x04\x05"), ("f600.bin", bytes((i * 7) & 0xFF for i in range(600))),
                      ("empty.bin", b"")):
@@ -1203,6 +1340,13 @@ def program_streams(ck, real, drv, rng):
     su = ck.stream("unsupported", "programs with one unsupported construct (if/else, mode, info/warning/error, from, '> .', section lists, "
                    "sizeof, symbol references, source attributes, '<= source', '~') anywhere: must be refused by BDParser.parse and by "
                    "parse_sb21_config/load_from_config; non-trivial = distinct text")
+    undefined_stream(ck, real, drv, rng, envwire)
+    e2e = ck.stream("end_to_end_cli", "fully supported generated programs: BD text -> `nxpimage sb21 export -c file.bd` through click's CliRunner -> "
+                    "SB2.1 file -> decoded by C04's compiled boot ROM model (drv_c04 rom21) -> section ids, header options and the command list "
+                    "must be what the BD program states (reference = Spec.cmdOf mirrored in ROM notation); non-trivial = exported")
+    rom = ck.driver("drv_c04")
+    e2e_budget = ck.budget(120, 2500)
+    real.kek_hex = Path(real.kek).read_text().strip()
     n = ck.budget(1300, 20000)
     for it in range(n):
         unsup = rng.random() < 0.12
@@ -1214,10 +1358,10 @@ def program_streams(ck, real, drv, rng):
         gotcfg, _raw = real.parse(text, extern)
         ans = drv.ask(" ".join(["P"] + ["EXT %s" % hx(e) for e in extern] + envwire + ["PROG"] + wirereq))
         parts = ans.split(" # ")
-        if len(parts) != 3:
-            s.compare(inp, "3 fields", ans, "driver rejected the request")
+        if len(parts) != 4:
+            s.compare(inp, "4 fields", ans, "driver rejected the request")
             continue
-        mcfg, mcmds, mspec = parts
+        mcfg, mcmds, mspec, muids = parts
         st = su if unsup else s
         st.compare(inp, gotcfg, mcfg, "configuration of BDParser.parse differs from the model")
         if unsup:
@@ -1247,6 +1391,14 @@ def program_streams(ck, real, drv, rng):
         refspec = "|".join(";".join(c if c is not None else "?" for c in sec) for sec in ref["cmds"])
         st.compare(inp, refspec, mspec, "Lean Spec.cmdOf differs from the harness's statement reference")
         st.note(text, nontrivial=gotc != "E", cls="accepted" if gotc != "E" else "refused")
+        if real.last_uids is not None and gotc != "E" and ";" in muids:
+            m_u, s_u = muids.split(";")
+            got_u = ",".join(str(u) for u in real.last_uids)
+            st.compare(inp, got_u, m_u, "boot section ids of load_from_config differ from the model")
+            want_u = ",".join(str(x) for x in prog["section_ids"])
+            st.compare(inp, want_u, s_u, "Lean Spec.sectionUids differs from the ids the generator wrote")
+            st.expect(got_u == want_u, inp, "a boot section does not carry the id written in `section (id)`", got_u, want_u,
+                      finding="C19-section-id" if prog["section_ids"] != list(range(len(prog["section_ids"]))) else None)
         for k in prog["kinds"]:
             st.hist["stmt:" + k] = st.hist.get("stmt:" + k, 0) + 1
         # oracle: every supported statement -> exactly the stated command
@@ -1264,6 +1416,34 @@ def program_streams(ck, real, drv, rng):
             if hdr is not None and gotc != "E":
                 st.expect(hdr == ref["header"], inp, "flags / versions / build number of the options block are not the ones in the image header",
                           list(hdr), list(ref["header"]))
+            # ---- end to end: BD text -> `nxpimage sb21 export` (CliRunner) -> SB file -> boot ROM model of C04 -> command list
+            if rom is not None and e2e.evaluations < e2e_budget and gotc != "E" and finding is None and want != "E" \
+                    and mask_keywrap(gotc, want) == want and all(len(sec) > 0 for sec in prog["sections"]):
+                exp_secs = [rom_expected(sec) for sec in want.split("|")]
+                if all(x is not None for x in exp_secs):
+                    blob = real.cli_export(text, extern)
+                    e2e.note(text, nontrivial=blob not in (None, "HANG"), cls="exported" if blob not in (None, "HANG") else "cli-failed")
+                    e2e.expect(blob not in (None, "HANG"), inp, "`nxpimage sb21 export` fails on a program of supported statements that "
+                               "load_from_config accepts", "exit != 0", "an SB file")
+                    if blob not in (None, "HANG"):
+                        ra = rom.ask("rom21 %s %s" % (real.kek_hex, blob.hex()))
+                        ok = ra.startswith("ok:") and "sections=" in ra
+                        e2e.expect(ok, inp, "the boot ROM model does not accept the SB file produced from the BD program", ra[:120], "ok:…")
+                        if ok:
+                            secs = ra[ra.index("sections=") + 9:].split("|") if ra[ra.index("sections=") + 9:] else []
+                            good = len(secs) == len(exp_secs) and all(rom_match(g[g.index("["):], e) for g, e in zip(secs, exp_secs))
+                            e2e.expect(good, inp, "the command list the boot ROM reads from the produced SB file is not the one the BD program "
+                                       "states (one command per statement, stated operands)", ra[ra.index("sections="):][:600], str(exp_secs)[:600])
+                            got_ids = [int(g.split(":")[0]) for g in secs]
+                            e2e.expect(got_ids == prog["section_ids"], inp, "a section of the SB file does not carry the id written in `section (id)`",
+                                       got_ids, prog["section_ids"],
+                                       finding="C19-section-id" if prog["section_ids"] != list(range(len(prog["section_ids"]))) else None)
+                            import re as _re
+                            hd = dict(_re.findall(r"(flags|pv|cv|bn)=([^;]*);", ra[:ra.index("sections=")]))
+                            want_h = {"flags": str(ref["header"][0]), "pv": ".".join(str(int(x, 16)) for x in ref["header"][1].split(".")),
+                                      "cv": ".".join(str(int(x, 16)) for x in ref["header"][2].split(".")), "bn": str(ref["header"][3])}
+                            e2e.expect(hd == want_h, inp, "header of the SB file: flags / versions / build number are not those of the options block",
+                                       hd, want_h)
         else:
             # statements outside the supported subset: whatever is accepted must still be right for the supported ones
             if gotc != "E":
@@ -1288,8 +1468,8 @@ def crypto_expand(real, cmds):
         out = []
         for c in sec.split(";") if sec else []:
             if c.startswith("crypto:"):
-                _c, kind, addr, st, en, key, ctr, inp = c.split(":")
-                r = pyres(real.crypto, kind, int(addr), int(st), int(en), key, ctr, inp)
+                _c, kind, addr, st, en, key, ctr, inp, swap = c.split(":")
+                r = pyres(real.crypto, kind, int(addr), int(st), int(en), key, ctr, inp, swap)
                 if r[0] != "ok":
                     return "E"
                 out.append(r[1])
@@ -1328,6 +1508,8 @@ def classify_known_stmt(stmt, prog):
         return "C19-blob-load"
     if is_prog_blob_zeros(stmt, m):
         return "C19-prog-blob-zeros"
+    if stmt["kind"] == "encrypt" and stmt.get("ref_swap"):
+        return "C19-keyblob-byteswap"
     return None
 
 
@@ -1354,7 +1536,12 @@ def classify_known_refusal(prog):
     """refused although every statement is supported: known when the program contains a plain blob load that the
     implementation refuses (more than 4 bytes) and nothing else can explain it — decided by re-running without them"""
     blobs = [st for sec in prog["sections"] for st in sec if is_plain_blob_load(st, st.get("ref_mem")) and len(st["data"][1]) > 8]
-    return "C19-blob-load" if blobs and prog.get("only_blob_refusal") else None
+    if blobs and prog.get("only_blob_refusal"):
+        return "C19-blob-load"
+    stmts = [st for sec in prog["sections"] for st in sec]
+    if prog.get("only_call_reset") and stmts and all(st["kind"] in ("call", "reset") for st in stmts):
+        return "C19-call-reset"
+    return None
 
 
 # ---------------------------------------------------------------------------------------------- program generator
@@ -1366,6 +1553,7 @@ def gen_program(rng, real, drv, unsup):
     # addresses, odd blob sizes …); the others consist of supported statements only, so that most programs are accepted
     risky = rng.random() < 0.3
     long_blob = (not risky) and (not unsup) and rng.random() < 0.06   # dedicated: ONE plain blob load of more than 4 bytes
+    call_reset = (not risky) and (not unsup) and (not long_blob) and rng.random() < 0.05   # dedicated: only call / reset statements
     env = {}          # reference environment: name -> int | str
     blocks_text, wirereq = [], []
     sources, keyblobs = {}, []
@@ -1503,8 +1691,9 @@ def gen_program(rng, real, drv, unsup):
             ctr = "".join(rng.choice("0123456789abcdef") for _ in range(16))
             opts = [("start", "E", E(mk_int(start, names_int)), start), ("end", "E", E(mk_int(end, names_int)), end),
                     ("key", "S", key, key), ("counter", "S", ctr, ctr)]
-            if rng.random() < 0.3:
-                opts.append(("byteSwap", "E", E(("L", 0)), 0))
+            if rng.random() < 0.45:
+                bsw = rng.choice([0, 0, 1, 1, 2])
+                opts.append(("byteSwap", "E", E(("L", bsw)), bsw))
             if risky and rng.random() < 0.2:
                 opts.pop(rng.randrange(4))
             rng.shuffle(opts)
@@ -1543,7 +1732,8 @@ def gen_program(rng, real, drv, unsup):
     def gen_stmt():
         k = rng.choices(["load_file", "load_blob", "load_pattern", "load_prog", "erase", "eraseall", "eraseunsec", "enable", "jump", "call",
                          "jumpsp", "reset", "ver", "ks", "keywrap", "encrypt"],
-                        [14, 7, 14, 7, 9, 4, 2, 6, 6, 2 if risky else 0, 4, 2 if risky else 0, 5, 5, 4, 4])[0]
+                        [14, 7, 14, 7, 9, 4, 2, 6, 6, 0, 4, 0, 5, 5, 4, 4] if not call_reset else
+                        [0, 0, 0, 0, 0, 0, 0, 0, 0, 3, 0, 1, 0, 0, 0, 0])[0]
         if k == "load_file":
             d = ("source", rng.choice(src_names)) if src_names and rng.random() < 0.6 else ("file", rng.choice(["f16.bin", "f5.bin", "f600.bin"] + (["missing.bin"] if risky else [])))
             return {"kind": "load", "opt": mem_opt(), "data": d, "target": target(allow_range=risky and rng.random() < 0.2)}
@@ -1612,10 +1802,10 @@ def gen_program(rng, real, drv, unsup):
             return {"kind": "eraseunsec"}
         return {"kind": "encrypt", "id": E(mk_int(rng.choice([0, 1, 2, 3]) if risky else rng.choice(keyblobs)["id"], names_int)), "opt": None, "data": d,
                 "target": ("a", E(mk_int(rng.choice([0x08000000, 0x08001000, 0x10000000, 0x08000200]), names_int)))}
-    if long_blob:
+    if long_blob or call_reset:
         nsec = 1
     for si in range(nsec):
-        stmts = [gen_stmt() for _ in range(rng.choice([0, 1, 2, 3, 4, 5, 6, 7, 8]))]
+        stmts = [gen_stmt() for _ in range(rng.choice([0, 1, 2, 3, 4, 5, 6, 7, 8]) if not call_reset else rng.choice([1, 2, 3]))]
         if long_blob:
             nb = rng.choice([5, 6, 8, 8, 16, 32])
             hexs = "".join(rng.choice("0123456789abcdefABCDEF") for _ in range(2 * nb))
@@ -1720,6 +1910,13 @@ def gen_program(rng, real, drv, unsup):
                 st["ref_mem"] = 0 if o is None else (ref_eval(o[1].ast, env) if o[0] == "@" else dict(real.mem_names).get(o[1]))
             except (RefErr, Huge):
                 st["ref_mem"] = None
+            if st["kind"] == "encrypt":
+                try:
+                    kid_v = ref_eval(st["id"].ast, env)
+                    st["ref_swap"] = any(b["id"] == kid_v and isinstance(b["content"].get("byteSwap", 0), int) and b["content"].get("byteSwap", 0)
+                                         for b in keyblobs[:1 + [i for i, b in enumerate(keyblobs) if b["id"] == kid_v][0]]) if any(b["id"] == kid_v for b in keyblobs) else False
+                except (RefErr, Huge):
+                    st["ref_swap"] = False
             row.append(stmt_ref(st_ast, ev, ctx))
         ref_cmds.append(row)
         lines.append("section (%s) {\n    %s\n}" % (et(idt), join_defs(rng, body, stmt=True)))
@@ -1734,7 +1931,8 @@ def gen_program(rng, real, drv, unsup):
         dval_canon(kid) + dict_canon(c) for kid, c in cfg_kbs) + "] " + (("S" + dict_canon(sources)) if have_sources else "S-")
     ref_head += " sections:" + ",".join(dval_canon(x) for x in sec_cfg)
     return {"text": text, "wire": wirereq, "extern": extern, "sections": sections, "kinds": kinds_used, "unsup_kind": unsup_kind,
-            "ref": {"config": ref_head, "cmds": ref_cmds, "header": hdr}, "only_blob_refusal": only_blob_refusal}
+            "ref": {"config": ref_head, "cmds": ref_cmds, "header": hdr}, "only_blob_refusal": only_blob_refusal,
+            "only_call_reset": call_reset, "section_ids": sec_cfg}
 
 
 def bcd(v):
